@@ -66,6 +66,51 @@ def nesting(depth):
     yield "fields", "fn main() -> int { return p" + ".x" * depth + " }\nshadow main { assert true }\n"
 
 
+IDENT_MAIN = "fn main() -> int {\n    return 0\n}\nshadow main { assert true }\n"
+IDENT_TEMPLATES = {
+    "fn": "fn @(a: int) -> int { return a }\n",
+    "fn+shadow": "fn @(a: int) -> int { return a }\nshadow @ { assert true }\n",
+    "shadow-only": "shadow @ { assert true }\n",
+    "extern": "extern fn @(x: int) -> int\n",
+    "struct": "struct @ { x: int }\n",
+    "enum": "enum @ { A, B }\n",
+    "union": "union @ { L { v: int } }\n",
+    "global": "let @: int = 1\n",
+    "param": "fn f(@: int) -> int { return @ }\nshadow f { assert true }\n",
+    "local": "fn g() -> int {\n    let @: int = 1\n    return @\n}\nshadow g { assert true }\n",
+    "call": "fn h() -> int {\n    (@)\n    return 0\n}\nshadow h { assert true }\n",
+    "value": "fn k() -> int {\n    let v: int = @\n    return v\n}\nshadow k { assert true }\n",
+    "type": "fn t(a: @) -> @ { return a }\nshadow t { assert true }\n",
+    "field": "struct S { @: int }\nfn u(s: S) -> int { return s.@ }\nshadow u { assert true }\n",
+    "twice": "fn @(a: int) -> int { return a }\nfn @(a: int) -> int { return a }\n",
+}
+_RESERVED = []
+
+
+def reserved_names():
+    """built-in function names of the tree under test (registry + type checker list), type names, keywords"""
+    if not _RESERVED:
+        names = set()
+        for f in ("src/builtins_registry.c", "src/typechecker.c"):
+            try:
+                txt = open(os.path.join(common.REPO, f)).read()
+            except OSError:
+                continue
+            if f.endswith("registry.c"):
+                names.update(re.findall(r'^\s*\{"(\w+)",', txt, re.M))
+            else:
+                m = re.search(r"builtin_function_names\[\] = \{(.*?)\};", txt, re.S)
+                if m:
+                    names.update(re.findall(r'"(\w+)"', m.group(1)))
+        names.update(["int", "bool", "string", "float", "void", "u8", "array", "List", "HashMap", "opaque", "main", "self", "true", "false",
+                      "fn", "let", "mut", "set", "if", "else", "while", "for", "in", "return", "struct", "enum", "union", "match", "shadow",
+                      "assert", "import", "from", "as", "pub", "extern", "unsafe", "and", "or", "not", "break", "continue", "range", "_", "x"])
+        _RESERVED.extend(sorted(names))
+        if len(_RESERVED) < 100:
+            raise common.HarnessError("could not read the built-in names of the tree (%d)" % len(_RESERVED))
+    return _RESERVED
+
+
 def gen_cases(tier):
     """yields (label, bytes)"""
     seeds = {}
@@ -101,6 +146,10 @@ def gen_cases(tier):
         for ln in range(0, L + 1):
             for combo in itertools.product(SHORT, repeat=ln):
                 yield "short:%s:%s" % (hole, " ".join(combo)), (tmpl % " ".join(combo)).encode()
+    # every reserved / built-in / type name at every definition position
+    for tname, tmpl in IDENT_TEMPLATES.items():
+        for nm in reserved_names():
+            yield "ident:%s:%s" % (tname, nm), (tmpl.replace("@", nm) + IDENT_MAIN).encode()
     for depth in (10, 100, 999, 1000, 1001, 2000, 50000):
         for fam, text in nesting(depth):
             yield "nest:%s:%d" % (fam, depth), text.encode()
@@ -116,6 +165,12 @@ def gen_cases(tier):
                         for b in A2:
                             yield "pair:%s:%d:%s:%d:%s" % (name, i, a, j, b), join(toks[:i] + [a] + toks[i + 1:j] + [b] + toks[j + 1:]).encode()
                     yield "pairdel:%s:%d:%d" % (name, i, j), join(toks[:i] + toks[i + 1:j] + toks[j + 1:]).encode()
+
+
+def _repo_file(args):
+    exe, root, rf, out = args[:4]
+    rc, o, e = common.run([exe, rf, "--emit-nvm", "-o", out], timeout=args[4] if len(args) > 4 else 60, cwd=root)
+    return rf, rc, e
 
 
 def _chunk(args):
@@ -259,6 +314,25 @@ def run(tier):
             if rc not in (0, 1) or (rc == 1 and not e):
                 rep.violation("c09:import:" + n, {n: imp[n], "observed.txt": "exit=%s\n%s" % (rc, e.decode(errors="replace")[-3000:])},
                               "nano_virt on import family %s: exit %s (must be 0, or 1 with a diagnostic)" % (n, rc), "bin/nano_virt %s --emit-nvm -o /dev/null" % n)
+    # every .nano file of the tree itself through the real tool, from the tree root (its imports resolve)
+    repo_files = sorted(os.path.relpath(os.path.join(dp, f), tree.root) for dp, _dn, fs in os.walk(tree.root) for f in fs
+                        if f.endswith(".nano") and "/.git/" not in dp)
+    rjobs = [(tree.exe("nano_virt"), tree.root, rf, os.path.join(work, "repo%d.nvm" % (i % 64))) for i, rf in enumerate(repo_files)]
+    nrepo = 0
+    for rf, rc, e in common.pmap(_repo_file, rjobs, chunksize=8):
+        nrepo += 1
+        tool += 1
+        total += 1
+        if rc not in (0, 1) or (rc == 1 and not e):
+            if rc == "timeout":
+                rc2 = _repo_file((tree.exe("nano_virt"), tree.root, rf, os.path.join(work, "repoX.nvm"), 300))[1]
+                if rc2 in (0, 1):
+                    continue
+            last = [l for l in e.decode(errors="replace").splitlines() if l.strip()][-3:]
+            rep.violation("c09:repo:%s:%s" % (rc, re.sub(r"\d+", "N", " ".join(last))[:60]), {"which.txt": rf + "\n", "stderr.txt": e[-6000:]},
+                          "front end on the tree's own file %s: exit %s (must be 0, or 1 with a diagnostic); last output: %s" % (rf, rc, " | ".join(last)[:200]),
+                          "cd <tree>; bin/nano_virt %s --emit-nvm -o /tmp/x.nvm" % rf)
+    rep.coverage["repo_files_through_real_tool"] = nrepo
     rep.count("states", total)
     rep.count("transitions", acc + rej + len(bads) + tool)
     rep.count("traces_validated_against_impl", tool)
